@@ -43,6 +43,7 @@ mod pickercmd;
 mod evalcmd;
 mod searchcmd;
 mod keypairs;
+mod orderingcmd;
 
 fn main() {
     // Panics inside the code under test are data: keep the default hook quiet and let
@@ -72,6 +73,7 @@ fn main() {
         "eval" => evalcmd::main(rest),
         "search" => searchcmd::main(rest),
         "keypairs" => keypairs::main(rest),
+        "ordering" => orderingcmd::main(rest),
         other => {
             eprintln!("unknown subcommand {other}");
             2
